@@ -283,6 +283,87 @@ var c08Shifts = [][4]int64{
 	{1<<51 - 100, -(1 << 51), 1<<51 - 101, -(1 << 51) + 101}, // sums at 2^52, differences small
 }
 
+// c08ScaleScope: pattern and path multiplied by the same integer factor k (coordinate differences of 2e9 ... 2^60, where
+// products of differences leave int64 and then float64's 53 bits). The base oracle classifies integer base points; a
+// point robustly swept (depth > 2 in the base, hence > 2k after scaling) must have winding 1 at its image in the scaled
+// result, a point farther than 2 from everything swept winding 0 - exact 128-bit winding of the scaled result.
+func c08ScaleScope(name string, pe enum.Embed, patN int, patStride uint64, qe enum.Embed, pathN int, pathClosed bool, pathStride uint64, factors []int64, level int) *drv.Scope {
+	var pb, qb, pt, qt Path
+	nPat := (enum.PathCount(3, patN) + patStride - 1) / patStride
+	nPath := (enum.PathCount(3, pathN) + pathStride - 1) / pathStride
+	per := nPat * nPath
+	scale := func(dst, src Path, k int64) Path {
+		dst = dst[:0]
+		for _, p := range src {
+			dst = append(dst, Pt{X: p.X * k, Y: p.Y * k})
+		}
+		return dst
+	}
+	return &drv.Scope{Name: name, Level: level, Size: per * uint64(len(factors)),
+		Show: func(idx uint64) any {
+			return map[string]any{"pattern (before scaling)": pathLit(enum.UnrankPath(idx%per%nPat*patStride, 3, patN, pe, nil)), "path (before scaling)": pathLit(enum.UnrankPath(idx%per/nPat*pathStride, 3, pathN, qe, nil)),
+				"both scaled by": factors[idx/per], "path closed": pathClosed, "operations": "MinkowskiSum64 and MinkowskiDiff64"}
+		},
+		Run: func(c *drv.Ctx, idx uint64) {
+			k := factors[idx/per]
+			pb = enum.UnrankPath(idx%per%nPat*patStride, 3, patN, pe, pb)
+			qb = enum.UnrankPath(idx%per/nPat*pathStride, 3, pathN, qe, qb)
+			pt, qt = scale(pt, pb, k), scale(qt, qb, k)
+			nt := false
+			for _, isSum := range []bool{true, false} {
+				var out Paths
+				opn := "MinkowskiDiff64"
+				if isSum {
+					out = clipper.MinkowskiSum64(pt, qt, pathClosed)
+					opn = "MinkowskiSum64"
+				} else {
+					out = clipper.MinkowskiDiff64(pt, qt, pathClosed)
+				}
+				c.Exec(1)
+				c.Output(enum.HashPaths(out))
+				qs := minkowskiQuads(pb, qb, isSum, pathClosed)
+				if len(qs) == 0 {
+					if len(out) != 0 {
+						c.Fail("not-empty", opn, "%s(pattern=%v, path=%v, isClosed=%v): nothing is swept but the result is %v", opn, pt, qt, pathClosed, out)
+					}
+					continue
+				}
+				minX, minY, maxX, maxY := math.Inf(1), math.Inf(1), math.Inf(-1), math.Inf(-1)
+				for i := range qs {
+					minX, maxX = math.Min(minX, qs[i].minX), math.Max(maxX, qs[i].maxX)
+					minY, maxY = math.Min(minY, qs[i].minY), math.Max(maxY, qs[i].maxY)
+				}
+			scan:
+				for y := int64(minY) - 3; y <= int64(maxY)+3; y++ {
+					for x := int64(minX) - 3; x <= int64(maxX)+3; x++ {
+						cls := classifyQuads(qs, float64(x), float64(y))
+						if cls == 0 {
+							continue
+						}
+						w, on := windExact(out, x*k, y*k)
+						if on {
+							continue
+						}
+						if cls == 1 {
+							nt = true
+						}
+						if cls == 1 && w != 1 || cls == -1 && w != 0 {
+							c.Fail("scaled-winding", opn, "%s(pattern=%v, path=%v, isClosed=%v) [pattern %v and path %v scaled by %d]: the result has winding %d at (%d,%d), the image of the base point (%d,%d), which is %s; result %v", opn, pt, qt, pathClosed, pb, qb, k, w, x*k, y*k, x, y,
+								map[int]string{1: "swept throughout its 2-unit neighbourhood (expected 1)", -1: "more than 2 units from everything swept (expected 0)"}[cls], out)
+							break scan
+						}
+					}
+				}
+			}
+			if nt {
+				c.Nontriv()
+				c.Count("inputs_with_a_robustly_swept_point", 1)
+			}
+		}}
+}
+
+var c08Factors = []int64{107374183, 1<<31 + 11, 1 << 40, 1 << 54}
+
 func init() {
 	drv.Register(&drv.Check{
 		ID:    "C08",
@@ -304,7 +385,9 @@ func init() {
 					// 4-point patterns include explicitly closed rings a,b,c,a (pattern[0] == pattern[last])
 					c08Scope("minkowski/every 7th of P(3,4)/E_ax x open 2-point paths (every 5th)/E_ax20", enum.Eax, 4, 7, enum.Eax20, 2, false, 5, 3),
 					c08ShiftScope("minkowski translated/every 7th of P(3,3)/E_sh x open 2-point paths (every 2nd)/E_ax20 x 5 translations", enum.Esh, 3, 7, enum.Eax20, 2, false, 2, c08Shifts, 2),
-					c08ShiftScope("minkowski translated/every 10th of P(3,3)/E_ax x closed triangles (every 10th)/E_sh20 x 5 translations", enum.Eax, 3, 10, enum.Esh20, 3, true, 10, c08Shifts, 3))
+					c08ShiftScope("minkowski translated/every 10th of P(3,3)/E_ax x closed triangles (every 10th)/E_sh20 x 5 translations", enum.Eax, 3, 10, enum.Esh20, 3, true, 10, c08Shifts, 3),
+					c08ScaleScope("minkowski scaled/every 7th of P(3,3)/E_sh x open 2-point paths (every 2nd)/E_ax20 x 4 factors", enum.Esh, 3, 7, enum.Eax20, 2, false, 2, c08Factors, 2),
+					c08ScaleScope("minkowski scaled/every 10th of P(3,3)/E_ax x closed triangles (every 10th)/E_sh20 x 4 factors", enum.Eax, 3, 10, enum.Esh20, 3, true, 10, c08Factors, 3))
 				return out
 			}
 			for _, pe := range []enum.Embed{enum.Eax, enum.Esh} {
@@ -317,7 +400,9 @@ func init() {
 					c08Scope("minkowski/P(3,4)/"+pe.Name+" x open 2-point paths/E_ax20", pe, 4, 1, enum.Eax20, 2, false, 1, 3),
 					c08Scope("minkowski/P(3,3)/"+pe.Name+" x closed quads (every 28th)/E_ax20", pe, 3, 1, enum.Eax20, 4, true, 28, 3),
 					c08ShiftScope("minkowski translated/P(3,3)/"+pe.Name+" x open 2-point paths/E_ax20 x 5 translations", pe, 3, 1, enum.Eax20, 2, false, 1, c08Shifts, 2),
-					c08ShiftScope("minkowski translated/every 4th of P(3,3)/"+pe.Name+" x closed triangles (every 4th)/E_sh20 x 5 translations", pe, 3, 4, enum.Esh20, 3, true, 4, c08Shifts, 3))
+					c08ShiftScope("minkowski translated/every 4th of P(3,3)/"+pe.Name+" x closed triangles (every 4th)/E_sh20 x 5 translations", pe, 3, 4, enum.Esh20, 3, true, 4, c08Shifts, 3),
+					c08ScaleScope("minkowski scaled/every 2nd of P(3,3)/"+pe.Name+" x open 2-point paths/E_ax20 x 4 factors", pe, 3, 2, enum.Eax20, 2, false, 1, c08Factors, 2),
+					c08ScaleScope("minkowski scaled/every 4th of P(3,3)/"+pe.Name+" x closed triangles (every 4th)/E_sh20 x 4 factors", pe, 3, 4, enum.Esh20, 3, true, 4, c08Factors, 3))
 			}
 			return out
 		},
